@@ -18,6 +18,17 @@ func escapeObligs(tier string, withSplit bool) []Oblig {
 			}
 		}
 	}
+	// template payloads: concrete markers / line feeds at chosen places, symbolic bytes around them
+	for tpl := 1; tpl <= 15; tpl++ {
+		for mode := 0; mode <= 1; mode++ {
+			for _, shape := range []int{0, 2} {
+				if !withSplit && tier != "thorough" && (shape != 0 || (mode == 1 && tpl > 8)) {
+					continue // the C10 check runs the full template set
+				}
+				obs = append(obs, Oblig{Harness: "H_escape", Args: []int{shape, 0, mode, -1, tpl}})
+			}
+		}
+	}
 	if withSplit {
 		sn := 4
 		if tier == "thorough" {
@@ -37,12 +48,27 @@ func escapeObligs(tier string, withSplit bool) []Oblig {
 	return obs
 }
 
+func escbytesObligs(tier string) []Oblig {
+	var obs []Oblig
+	maxN := 4
+	if tier == "thorough" {
+		maxN = 6
+	}
+	for n := 0; n <= maxN; n++ {
+		obs = append(obs, Oblig{Harness: "H_escbytes", Args: []int{n, 0}})
+	}
+	for tpl := 1; tpl <= 15; tpl++ {
+		obs = append(obs, Oblig{Harness: "H_escbytes", Args: []int{0, tpl}})
+	}
+	return obs
+}
+
 func init() {
 	register(&CheckSpec{
 		ID:    "C10",
 		Props: []string{"C10"},
 		Obligs: func(tier string) []Oblig {
-			obs := escapeObligs(tier, true)
+			obs := append(escapeObligs(tier, true), escbytesObligs(tier)...)
 			maxK := 4
 			if tier == "thorough" {
 				maxK = 5
@@ -107,6 +133,24 @@ func histObligs(tier string, panicViol bool) []Oblig {
 	for op := 0; op < nHistOps; op++ {
 		add(1, op)
 		add(3, op)
+	}
+	// empty payloads (n = 0) and an empty payload between two others
+	emptyOps := []int{0, 1, 6, 7, 8, 9, 15, 16, 17, 18}
+	for _, a := range emptyOps {
+		add(0, a)
+		for _, b := range emptyOps {
+			add(0, a, b)
+		}
+	}
+	for _, a := range []int{1, 15, 16, 18, 0} {
+		for _, c := range []int{0, 1, 3, 16} {
+			obs = append(obs, Oblig{Harness: "H_hist2", Args: []int{1, a, 0, 1, c}, PanicViol: panicViol})
+			obs = append(obs, Oblig{Harness: "H_hist2", Args: []int{1, a, 0, 15, c}, PanicViol: panicViol})
+		}
+	}
+	// a longer first payload, then an empty unsafe write, then a mode switch
+	for _, a := range []int{1, 15} {
+		obs = append(obs, Oblig{Harness: "H_hist2", Args: []int{3, a, 0, 1, 1, 0}, PanicViol: panicViol})
 	}
 	if tier == "thorough" {
 		for a := 0; a < nHistOps; a++ {
@@ -181,7 +225,15 @@ func init() {
 	register(&CheckSpec{
 		ID:      "C09",
 		Props:   []string{"C09"},
-		Obligs:  func(tier string) []Oblig { return append(histObligs(tier, false), stepObligs(tier, false)...) },
+		Obligs: func(tier string) []Oblig {
+			obs := append(histObligs(tier, false), stepObligs(tier, false)...)
+			for _, pre := range []int{12, 13, 4, 5} {
+				for _, sc := range [][]int{{1, 0}, {0, 1}, {15, 0}, {16}, {3, 0}} {
+					obs = append(obs, Oblig{Harness: "H_histp", Args: append([]int{pre, 1}, sc...), PoolMode: 1})
+				}
+			}
+			return obs
+		},
 		Bounds:  histBounds,
 		Goals:   []string{"valid-payloads", "step-valid"},
 		Assume:  []string{"the two equalities are asserted only for valid-UTF-8 string payloads, valid runes and ASCII single bytes (the property's quantifier); well-formedness and line safety for all payloads"},
@@ -197,7 +249,7 @@ func init() {
 		Obligs: func(tier string) []Oblig {
 			var obs []Oblig
 			for _, o := range histObligs(tier, true) {
-				if len(o.Args) <= 2 || tier == "thorough" || (len(o.Args) == 3 && o.Args[0] == 1 && lightOp(o.Args[1]) && lightOp(o.Args[2])) {
+				if len(o.Args) <= 2 || tier == "thorough" || o.Harness == "H_hist2" || o.Args[0] == 0 || (len(o.Args) == 3 && o.Args[0] == 1 && lightOp(o.Args[1]) && lightOp(o.Args[2])) {
 					obs = append(obs, o)
 				}
 			}
@@ -213,6 +265,16 @@ func init() {
 					obs = append(obs, o)
 				}
 			}
+			// every value kind under every directive (1 symbolic leaf byte)
+			all := append([]int{}, redactKinds...)
+			for k := 0; k < nFmtKinds; k++ {
+				all = append(all, k)
+			}
+			for _, k := range all {
+				for d := 0; d < nDirectives; d++ {
+					obs = append(obs, Oblig{Harness: "H_vals", Args: []int{k, d, 1}, PanicViol: true})
+				}
+			}
 			return obs
 		},
 		Bounds:  histBounds,
@@ -224,11 +286,11 @@ func init() {
 
 // ---- printer-level tables ----
 
-const nFmtKinds = 53 // fmt-compatible value kinds of h_values.go
+const nFmtKinds = 57 // fmt-compatible value kinds of h_values.go
 const nDirectives = 50
 
 // kinds whose rendering depends on the string leaf
-var strKinds = []int{0, 1, 2, 12, 13, 14, 15, 16, 18, 19, 21, 25, 26, 27, 28, 31, 33, 34, 35, 36, 37, 38, 39, 41, 42, 43, 44, 47, 50}
+var strKinds = []int{0, 1, 2, 12, 13, 14, 15, 16, 18, 19, 21, 25, 26, 27, 28, 31, 33, 34, 35, 36, 37, 38, 39, 41, 42, 43, 44, 47, 51, 52, 54}
 var deepStrKinds = []int{0, 1, 14, 25, 27, 31, 35}
 var deepDirs = []int{0, 2, 3, 4, 5, 16, 17, 19, 20, 21, 25, 28}
 
@@ -265,6 +327,17 @@ func c04Obligs(tier string) []Oblig {
 	}
 	for _, d := range []int{0, 3, 16} {
 		obs = append(obs, Oblig{Harness: "H_c04", Args: []int{0, d, 3}})
+	}
+	mk := []int{0, 3, 10, 14, 17, 22, 27, 31, 34, 35, 36, 38, 46}
+	for _, k1 := range mk {
+		for _, k2 := range mk {
+			for f := 0; f < 6; f++ {
+				if tier != "thorough" && f >= 2 && (k1 > 14 || k2 > 14) && k1 != 10 && k2 != 10 {
+					continue
+				}
+				obs = append(obs, Oblig{Harness: "H_c04m", Args: []int{k1, k2, f, 1}})
+			}
+		}
 	}
 	for _, k1 := range []int{0, 3, 14, 27, 31, 10, 1, 36} {
 		for _, k2 := range []int{0, 3, 10, 27, 19} {
@@ -441,7 +514,7 @@ func wfObligs(tier string, panicViol bool) []Oblig {
 	obs := fmtbytesObligs(tier)
 	obs = append(obs, escapeObligs(tier, false)...)
 	for _, o := range histObligs(tier, panicViol) {
-		if tier == "thorough" || len(o.Args) <= 2 {
+		if tier == "thorough" || len(o.Args) <= 2 || o.Harness == "H_hist2" || o.Args[0] == 0 {
 			obs = append(obs, o)
 		} else if len(o.Args) == 3 && o.Args[0] == 1 && lightOp(o.Args[1]) && lightOp(o.Args[2]) {
 			obs = append(obs, o)
@@ -453,6 +526,11 @@ func wfObligs(tier string, panicViol bool) []Oblig {
 	}
 	obs = append(obs, Oblig{Harness: "H_hist", Args: []int{1, 4, 4, 4}, PanicViol: panicViol}, Oblig{Harness: "H_hist", Args: []int{1, 4, 4, 4, 1}, PanicViol: panicViol})
 	obs = append(obs, joinObligs(panicViol)...)
+	for _, o := range escbytesObligs(tier) {
+		if tier == "thorough" || o.Args[0] <= 3 {
+			obs = append(obs, o)
+		}
+	}
 	return obs
 }
 
@@ -528,6 +606,11 @@ func c13Obligs(tier string) []Oblig {
 	}
 	for _, variant := range []int{1, 3} {
 		for which := 0; which < 3; which++ {
+			// content still empty when Reset/Take is called (empty payloads in each mode)
+			for _, a := range []int{0, 1, 6, 18} {
+				obs = append(obs, Oblig{Harness: "H_c13", Args: []int{variant, which, 1, 0, a, 1}})
+				obs = append(obs, Oblig{Harness: "H_c13", Args: []int{variant, which, 2, 0, a, 0, 1}})
+			}
 			for _, a := range ops {
 				for _, b := range ops {
 					obs = append(obs, Oblig{Harness: "H_c13", Args: []int{variant, which, 1, 1, a, b}})
@@ -633,7 +716,7 @@ func c08Obligs(tier string) []Oblig {
 			}
 		}
 	}
-	for v := 0; v < 8; v++ {
+	for v := 0; v < 12; v++ {
 		for _, s1 := range []int{2, 3, 4, 5, 8} {
 			for _, s2 := range []int{1, 2, 6} {
 				obs = append(obs, Oblig{Harness: "H_c08j", Args: []int{s1, s2, v}})
@@ -674,6 +757,13 @@ func c14Obligs(tier string) []Oblig {
 					continue
 				}
 				obs = append(obs, Oblig{Harness: "H_c14", Args: []int{w, p, vm}})
+			}
+		}
+	}
+	for w := 0; w < 3; w++ {
+		for p := 0; p < 3; p++ {
+			for pre := 1; pre <= 3; pre++ {
+				obs = append(obs, Oblig{Harness: "H_c14", Args: []int{w, p, 0, pre}})
 			}
 		}
 	}
@@ -771,6 +861,13 @@ func c16Obligs(tier string) []Oblig {
 	for v := 0; v < 5; v++ {
 		obs = append(obs, Oblig{Harness: "H_c16e", Args: []int{v}})
 	}
+	for _, k := range []int{0, 3, 7, 14, 19, 102} {
+		for pi := 0; pi < 6; pi++ {
+			for pf := 0; pf < 2; pf++ {
+				obs = append(obs, Oblig{Harness: "H_c16s", Args: []int{k, pi, 1, pf}})
+			}
+		}
+	}
 	return obs
 }
 
@@ -788,6 +885,11 @@ func c17Obligs(tier string) []Oblig {
 				}
 			}
 			obs = append(obs, Oblig{Harness: "H_c17", Args: []int{ek, pos, 0, 1, 1, 1}})
+		}
+		for pre := 1; pre <= 3; pre++ {
+			for _, pos := range []int{0, 2, 6, 7} {
+				obs = append(obs, Oblig{Harness: "H_c17", Args: []int{ek, pos, 0, 1, 1, 0, pre}, PoolMode: 1})
+			}
 		}
 	}
 	return obs
@@ -845,8 +947,8 @@ func c05Obligs(tier string) []Oblig {
 			}
 		}
 	}
-	for l1 := 0; l1 < 10; l1++ {
-		for _, l2 := range []int{0, 2, 3, 5, 6} {
+	for l1 := 0; l1 < 12; l1++ {
+		for _, l2 := range []int{0, 2, 3, 5, 6, 10} {
 			for _, l3 := range []int{0, 1, 4} {
 				for shape := 0; shape < 5; shape++ {
 					if l1 == 9 && shape != 0 && shape != 4 {
